@@ -38,11 +38,13 @@ type Program struct {
 	// fileOf maps token.File name to the syntax tree
 	files map[string]*ast.File
 	// normalisation (package norm): helpers unknown on the reference tree that were inlined / left alone
-	NewFuncs   []string
-	Inlined    []string
-	Skipped    []string
-	Notes      []string
-	Normalized map[string][]byte
+	NewFuncs    []string
+	Inlined     []string
+	Skipped     []string
+	Notes       []string
+	Normalized  map[string][]byte
+	InlinedAway []string
+	allFuncs    []*ssa.Function
 }
 
 // DefaultPatterns covers what the real build covers.
@@ -226,7 +228,67 @@ func (p *Program) Info(fn *ssa.Function) *types.Info {
 
 // AllFuncs returns every source-level function (including anonymous ones) of repo packages,
 // in deterministic order.
+// AllFuncs lists the source functions of the repo packages. Helpers unknown on the reference tree whose every call
+// site was inlined by the normaliser (no static caller left) are omitted: their logic is analysed where it now sits,
+// in the context of its caller, and analysing the left-over declaration out of that context would be meaningless.
 func (p *Program) AllFuncs() []*ssa.Function {
+	if p.allFuncs != nil {
+		return p.allFuncs
+	}
+	all := p.allFuncsRaw()
+	if len(p.NewFuncs) == 0 {
+		p.allFuncs = all
+		return all
+	}
+	isNew := map[string]bool{}
+	for _, k := range p.NewFuncs {
+		isNew[k] = true
+	}
+	called := map[*ssa.Function]bool{}
+	for _, f := range all {
+		for _, b := range f.Blocks {
+			for _, in := range b.Instrs {
+				if cl, ok := in.(ssa.CallInstruction); ok {
+					if callee := cl.Common().StaticCallee(); callee != nil {
+						called[callee] = true
+					}
+				}
+				// a function value taken (method value, passed as argument) also keeps it alive
+				for _, op := range in.Operands(nil) {
+					if op == nil || *op == nil {
+						continue
+					}
+					if fv, ok := (*op).(*ssa.Function); ok {
+						if cl, isCall := in.(ssa.CallInstruction); !isCall || cl.Common().Value != *op {
+							called[fv] = true
+						}
+					}
+					if mc, ok := (*op).(*ssa.MakeClosure); ok {
+						if fv, ok := mc.Fn.(*ssa.Function); ok {
+							called[fv] = true
+						}
+					}
+				}
+			}
+		}
+	}
+	var out []*ssa.Function
+	for _, f := range all {
+		root := f
+		for root.Parent() != nil {
+			root = root.Parent()
+		}
+		if obj, ok := root.Object().(*types.Func); ok && isNew[norm.FuncKey(obj)] && !called[root] {
+			p.InlinedAway = append(p.InlinedAway, norm.FuncKey(obj))
+			continue
+		}
+		out = append(out, f)
+	}
+	p.allFuncs = out
+	return out
+}
+
+func (p *Program) allFuncsRaw() []*ssa.Function {
 	var out []*ssa.Function
 	seen := map[*ssa.Function]bool{}
 	var add func(f *ssa.Function)
